@@ -494,13 +494,21 @@ def _run_instance(c, tree, mod, label, recv, rep, timeout_ms, lookup):
             gen = interp.call_closure(s0, clo, pos, kw)
         for s1, r in gen:
             if c.then and r[0] == "ok":
-                if r[1].kind != "fn":
+                stage1 = r[1]
+                if stage1.kind == "const" and callable(stage1.d):
+                    rc = interp.resolve_repo_callable(stage1.d)     # a module-level function of the repository returned as is
+                    if rc is None:
+                        raise Unsupported("`then` stage: the unit returned a callable that is not repository source")
+                    stage1 = V("fn", rc[0])
+                if stage1.kind != "fn":
                     raise Unsupported("`then` stage: the unit did not return a closure")
                 names2 = dict(spec_names)
+                # the free variables of the returned closure are visible to the clauses of the second stage
+                names2.update({k_: v_ for k_, v_ in stage1.d.env.items() if isinstance(v_, V) and k_ not in names2})
                 tp = {nm: make_param(interp, s1, nm, kd) for nm, kd in c.then.items()}
                 names2.update(tp)
                 names2["stage1"] = r[1]
-                for s2, r2 in interp.call_closure(s1, r[1].d, list(tp.values()), {}):
+                for s2, r2 in interp.call_closure(s1, stage1.d, list(tp.values()), {}):
                     paths.append((s2, r2, names2, False))
             elif c.then:
                 pass      # stage 1 itself failed (e.g. the next provider declined): no processor to speak about
